@@ -187,6 +187,26 @@ func judgeC18(c *core.Case, cfg *core.Config) core.Verdict {
 		}
 	case "scope-own":
 		// lhs = map(xs, {[#, <builtin over ys>, #]}), aux = xs: components 0 and 2 of row i are xs[i]
+		if st := src("static"); mode == "typed" && st != "" {
+			// static counterpart: after the inner builtin, `#` still has the OUTER collection's element type
+			tx, ex := staticType(src("aux"))
+			ts, es := staticType(st)
+			if ex == nil && es == nil && tx != nil && ts != nil {
+				var elem reflect.Type
+				switch tx.Kind() {
+				case reflect.Slice, reflect.Array:
+					elem = tx.Elem()
+				case reflect.Interface:
+					elem = tx
+				}
+				if elem != nil && elem.Kind() != reflect.Interface {
+					if want := reflect.SliceOf(elem); ts != want {
+						return fail("the checker types %s as %v; after the inner builtin `#` still ranges over %s (%v), so it is %v", st, ts, src("aux"), tx, want)
+					}
+					v.Classes = append(v.Classes, "static-type-checked")
+				}
+			}
+		}
 		xs := eval(src("aux"))
 		if xs.err != nil {
 			v.Skip = "aux-fails"
@@ -424,6 +444,17 @@ func genC18(t *rapid.T, cfg *core.Config) *core.Case {
 			inner = core.Builtin(name, ys, q, rty)
 		})
 		e := xs.Ty.Elem
+		// `(<inner builtin used as a condition>) ? # : #` has the static type of `#`
+		var asBool *core.X
+		switch {
+		case inner.Ty.K == core.KBool:
+			asBool = inner
+		case inner.Ty.K == core.KInt:
+			asBool = core.Bin(">=", inner, core.LitInt(0), core.TBool)
+		default:
+			asBool = core.Bin(">=", core.Len(inner), core.LitInt(0), core.TBool)
+		}
+		c.P["static"] = pr(core.Builtin("map", xs, core.Cond(asBool, ptrOf(e), ptrOf(e), e), core.SeqOf(e, core.RepIface)))
 		row := core.Arr(core.SeqOf(e, core.RepIface), ptrOf(e), inner, ptrOf(e))
 		lhs := core.Builtin("map", xs, row, core.SeqOf(row.Ty, core.RepIface))
 		set(lhs, lhs)
